@@ -72,7 +72,7 @@ def _tlc_cmd(module, cfg, workers, extra, jvm):
     return cmd
 
 
-def run_tlc(module, cfg, *, workers=16, extra=(), timeout=1800, env=None, jvm=(), spec_dir=SPEC_DIR, cfg_text=None):
+def run_tlc(module, cfg, *, workers=8, extra=(), timeout=1800, env=None, jvm=(), spec_dir=SPEC_DIR, cfg_text=None):
     """Run TLC on spec_dir/module.tla with spec_dir/cfg (or a generated cfg when cfg_text is given)."""
     meta = tempfile.mkdtemp(prefix='rvtlc_')
     try:
@@ -158,20 +158,11 @@ def simulate(module, cfg, *, num, depth, seed, timeout=600, spec_dir=SPEC_DIR, c
 
 
 def parse_sim_file(text):
+    """one behaviour file of `tlc -simulate file=...` -> [(action name, state dict)]"""
     steps = []
-    # blocks: optional comment "\* <Action line ...>" then "STATE_n == \n /\ v = ..."
-    parts = re.split(r'^(STATE_\d+) ==', text, flags=re.M)
-    # parts[0] preamble; then name, body alternating
-    pre = parts[0]
-    for i in range(1, len(parts), 2):
-        body = parts[i + 1]
-        m = re.search(r'\\\* <(\w+) line', pre)
-        act = m.group(1) if m else 'Init'
-        # body up to next comment/blank
-        cut = re.search(r'\n\s*\n', body)
-        decl = body[:cut.start()] if cut else body
-        pre = body[cut.start():] if cut else ''
-        steps.append((act, parse_state(decl)))
+    rx = re.compile(r'^\\\* <(\w+)[^\n]*>\nSTATE_\d+ ==[ \t]*\n(.*?)(?=\n[ \t]*\n|\Z)', re.M | re.S)
+    for m in rx.finditer(text):
+        steps.append((m.group(1), parse_state(m.group(2))))
     return steps
 
 
